@@ -53,6 +53,7 @@ def run(ctx, rep):
     rep.run(RH2.rule_primary_templates_raise, ctx, rep, "K13")
     rep.run(RH2.rule_wide_integers_read_exactly, ctx, rep, "K14")
     rep.run(RH.rule_strings_by_evaluation, ctx, rep, "K15")
+    rep.run(RH.rule_scalars_by_evaluation, ctx, rep, "K16")
 
 
 def run_thorough(ctx, rep):
